@@ -2,11 +2,11 @@
 
 PROP = {'modules': ['AmVerif.Props.C15'],
  'engines': [{'name': 'idle', 'quick': 20, 'thorough': 60}],
- 'rule': 'idle.run executes in a CHILD process: create 1-4 [thorough 8] caches over an in-memory source that keeps / drops its EventSender or over '
+ 'rule': 'idle.run executes in a CHILD process: create 1-4 [thorough 8] caches over an in-memory source that keeps its EventSender / drops it at once / never stores it / drops it after use, or over '
          'FileSystem on a temp dir (real watcher), load, hot_reload, measure every assets_hot_reload thread while idle, drop the caches (idle / '
          'right after hot_reload / with 24 events just queued / with 24 loads just done), wait <= 400 ms, measure again. Measurement = scheduler '
          'state of /proc/self/task/<tid>/stat sampled 30x over 300 ms + utime+stime ticks: exited | asleep (all S, <= 1 tick) | spinning (>= 80% '
-         'R); mixed readings re-measured over 3x / 9x longer windows. cases 0-11: every kind x every moment with one cache; case 12: '
+         'R); mixed readings re-measured over 3x / 9x longer windows. cases 0-11: mem-keep, mem-nosender, fs x every moment with one cache; cases 13-14: LIVE caches whose source never stored / later dropped the sender (must not spin while alive); case 12: '
          'Select::ready primitive conformance over all 16 input combinations; then random 70% idle.run, 20% idle.prim, 10% malformed. '
          'non-trivial = a child or the primitive was run; distinct = distinct (op, result) transcripts',
  'assumptions': ['crossbeam Select::ready: blocks while no operation is ready; an operation is ready when its channel holds a message or is disconnected; any ready operation may be returned (checked by idle.prim on the real primitive)',
@@ -17,7 +17,7 @@ PROP = {'modules': ['AmVerif.Props.C15'],
  'the drain loop is emitted as break_outer)']}
 
 META = {'text': 'Model of one iteration of hot_reloading_thread (blocked / continue / exit) from the regenerated skeleton, parametric in whether the drain '
-         'loop leaves the thread on a disconnected cache channel. Proved for all states and all picks of Select::ready: idle (both channels '
+         'loop leaves the thread on a disconnected cache channel and whether the events arm leaves it on a disconnected event channel (a live cache whose source released its sender must not keep a spinning thread: C15_quiet_without_sender, refuted for an events arm that ignores Disconnected). Proved for all states and all picks of Select::ready: idle (both channels '
          'connected and empty) blocks and the thread blocks only then; with the repaired fact the iteration after the drop exits for every queue '
          'content and every source kind, hence no thread survives any number of create/drop rounds; refutation for the defective fact: with an '
          'event sender alive every iteration continues for ever (spins), threads accumulate. C15_cfg_leavesOnDisconnect requires the repaired '
